@@ -36,7 +36,7 @@ class HitCounter:
         self.hits = 0
 
 
-def run_pair(ctx, sc, rnd):
+def run_pair(ctx, sc, rnd, mode='reduce'):
     import logging
     hc = HitCounter()
 
@@ -55,29 +55,34 @@ def run_pair(ctx, sc, rnd):
     logging.getLogger().addHandler(h)
     old = logging.getLogger().level
     try:
-        o1 = driver.run_scenario(on, ctx.tmp, mode='reduce', quiet_logging=False)
+        o1 = driver.run_scenario(on, ctx.tmp, mode=mode, quiet_logging=False)
     finally:
         logging.getLogger().removeHandler(h)
-    o2 = driver.run_scenario(off, ctx.tmp, mode='reduce')
+    o2 = driver.run_scenario(off, ctx.tmp, mode=mode)
     return on, off, o1, o2, hc.hits
 
 
-def oracle(ctx, on, off, o1, o2):
+def oracle(ctx, on, off, o1, o2, mode='reduce'):
     if o1.diverged or o2.diverged:
         return
-    clean = lambda o: o.code == 0 and not any(x.startswith('cvise_bug') or x.startswith('cvise_extra') for x in o.after)
+    if mode == 'reduce':
+        clean = lambda o: o.code == 0 and not any(x.startswith('cvise_bug') or x.startswith('cvise_extra') for x in o.after)
+        fin = lambda o: o.final
+    else:
+        clean = lambda o: all(p['code'] == 0 and p['bug'] == 0 and p['extra'] == 0 for p in o.passes)
+        fin = lambda o: o.passes[-1]['disk']
     if not (clean(o1) and clean(o2)):
         return   # a contract breach (unchanged OK etc.) — transparency is only claimed under the contract
-    f1 = [o1.final[o1.order.index(n)] for n in o1.names]
-    f2 = [o2.final[o2.order.index(n)] for n in o2.names]
+    f1 = [fin(o1)[o1.order.index(n)] for n in o1.names]
+    f2 = [fin(o2)[o2.order.index(n)] for n in o2.names]
     if f1 != f2:
-        ctx.violation('cache-changes-result', f'cache on ends on {f1}, --no-cache ends on {f2}', {'on': on, 'off': off})
+        ctx.violation('cache-changes-result', f'cache on ends on {f1}, --no-cache ends on {f2}', {'on': on, 'off': off, 'mode': mode})
 
 
 def explore(ctx):
     rnd = random.Random(ctx.seed + 10)
     red = []
-    n = 110 if ctx.quick() else 1000
+    n = 70 if ctx.quick() else 800
     for it in range(n):
         sc = gen(rnd)
         if it % 3 == 0:
@@ -94,16 +99,31 @@ def explore(ctx):
         ctx.count(f'k={len(sc["files"])}:hits={"0" if hits == 0 else "1+" }')
         if hits:
             ctx.nontriv(repr((sc['files'], sc['group'], sc['rules'])))
+    each = []
+    for it in range(n):
+        sc = scengen.gen_revisit(rnd, k=1 if it % 2 else None)
+        on, off, o1, o2, hits = run_pair(ctx, sc, rnd, mode='each')
+        ctx.evaluations += 2
+        if o1.diverged or o2.diverged:
+            ctx.count('diverged')
+            continue
+        oracle(ctx, on, off, o1, o2, mode='each')
+        each.append((driver.coq_scenario(on, o1.perm), o1.out, on))
+        each.append((driver.coq_scenario(off, o2.perm), o2.out, off))
+        ctx.count(f'revisit:k={len(sc["files"])}:hits={"0" if hits == 0 else "1+"}')
+        if hits:
+            ctx.nontriv(repr((sc['files'], sc['passes'], sc['rules'])))
     ctx.sample({'scenario': {k: red[0][2][k] for k in ('files', 'group', 'rules', 'cfg')}, 'impl_output': red[0][1][:40]})
-    correspond(ctx, 'c10', [], red)
+    correspond(ctx, 'c10', each, red)
 
 
 def replay(ctx, payload):
     r = payload['replay']
-    o1 = driver.run_scenario(r['on'], ctx.tmp, mode='reduce')
-    o2 = driver.run_scenario(r['off'], ctx.tmp, mode='reduce')
+    mode = r.get('mode', 'reduce')
+    o1 = driver.run_scenario(r['on'], ctx.tmp, mode=mode)
+    o2 = driver.run_scenario(r['off'], ctx.tmp, mode=mode)
     print('replay: on', o1.out[:12], 'off', o2.out[:12])
-    oracle(ctx, r['on'], r['off'], o1, o2)
+    oracle(ctx, r['on'], r['off'], o1, o2, mode=mode)
 
 
 LEVEL_TEXT = ('Machine-checked refinement: the model of CVise.reduce/TestManager.run_pass (cache keyed on pass, file and joint '
